@@ -8,6 +8,7 @@
    perturbation (twice, poisoned heap) with argument fingerprints. *)
 From Coq Require Import List Bool Reals.
 From PyStoG Require Import Num NumR ConverterM TransformerM FilterM DTypeShadow.
+From PyStoG.proofs Require Import PurityP.
 
 Theorem C16_no_truncation_conversions : forallb (fun s => negb (bad s)) (conv_sweep sd) = true.
 Proof. exact no_truncation_conversions. Qed.
@@ -26,7 +27,7 @@ Proof. exact old_transform_truncates. Qed.
 Theorem C16_model_is_a_function : forall (x y xo : list R) a b dy (k : kw R) x' y' xo' a' b' dy' k',
   x = x' -> y = y' -> xo = xo' -> a = a' -> b = b' -> dy = dy' -> k = k' ->
   fourier_transform x y xo a b dy k = fourier_transform x' y' xo' a' b' dy' k'.
-Proof. intros; subst; reflexivity. Qed.
+Proof. exact model_is_a_function. Qed.
 
 Print Assumptions C16_no_truncation_conversions.
 Print Assumptions C16_no_truncation_transforms.
